@@ -160,7 +160,9 @@ def tls_host_table(facts):
         return True
     tables = {}
     for scen, hostv in (("no-host", ("variant", "None", ())), ("valid-host", ("variant", "Some", ((0, ("const", "HOST_valid")),))),
-                        ("invalid-host", ("variant", "Some", ((0, ("const", "HOST_invalid")),)))):
+                        ("invalid-host", ("variant", "Some", ((0, ("const", "HOST_invalid")),))),
+                        # an IPv6 literal: `Uri::host` keeps the brackets; only the text between them is a valid server name
+                        ("bracketed-host", ("variant", "Some", ((0, ("const", "HOST_bracketed")),)))):
         def o_host(ev, st, t, site, hostv=hostv):
             return setd(st, t, hostv)
 
@@ -168,9 +170,9 @@ def tls_host_table(facts):
             if "ServerName" not in " ".join(t.get("targs") or []) + (t.get("resa") or "") + (t.get("decla") or ""):
                 return False
             a = deref(ev, st, ev._eval_operand(st, site.args[0]))
-            if a == ("const", "HOST_valid"):
+            if a in (("const", "HOST_valid"), ("const", "HOST_inner_valid")):
                 return setd(st, t, ("variant", "Ok", ((0, ("const", "SERVER_NAME")),)))
-            if a == ("const", "HOST_invalid"):
+            if a is not None and a[0] == "const" and str(a[1]).startswith("HOST_"):      # HOST_invalid, HOST_bracketed and its half-stripped forms
                 return setd(st, t, ("variant", "Err", ((0, ("const", "INVALID_DNS_NAME")),)))
             return False
 
@@ -186,6 +188,15 @@ def tls_host_table(facts):
             if a is None or a[0] != "const" or not str(a[1]).startswith("HOST_"):
                 return False
             n = norm(site.name).split("::")[-1]
+            some = lambda v: ("variant", "Some", ((0, ("const", v)),))
+            BR = {("HOST_bracketed", "strip_prefix"): "HOST_bracketed_nopfx", ("HOST_bracketed_nopfx", "strip_suffix"): "HOST_inner_valid",
+                  ("HOST_bracketed", "strip_suffix"): "HOST_bracketed_nosfx", ("HOST_bracketed_nosfx", "strip_prefix"): "HOST_inner_valid"}
+            if (a[1], n) in BR:
+                return setd(st, t, some(BR[(a[1], n)]))
+            if str(a[1]).startswith("HOST_bracketed") or a[1] == "HOST_inner_valid":
+                if n.startswith("strip_"):
+                    return setd(st, t, ("variant", "None", ()))
+                return False                                                            # trim_* on a bracketed host: outside the model (fail closed)
             return setd(st, t, ("variant", "None", ()) if n.startswith("strip_") else a)
 
         def o_connect(ev, st, t, site):
@@ -234,6 +245,14 @@ def C12_3(ctx, facts):
                   "the TLS domain (SNI / certificate name) derives from %s" % sorted(map(repr, other_parts or sig(rr)))[:6], c.where())
     u, tab = tls_host_table(facts)
     ctx.touched(u)
+    # a bracketed IPv6 literal: either refused, or connected with the name between the brackets - which is the value that was validated
+    got = tab["bracketed-host"]
+    if isinstance(got, Exception):
+        ctx.undecided("TlsTransportWrapper::call|host-table|bracketed-host", str(got))
+    else:
+        ctx.check(got in ({("error:InvalidDomain",)}, {("connect", "new:HOST_inner_valid")}), "TlsTransportWrapper::call|host-table|bracketed-host",
+                  "bracketed-host: the call does exactly %s (an IPv6 literal is refused, or the TLS future gets the text between the brackets, which is what ServerName::try_from accepted)" % sorted(map(str, got)),
+                  "bracketed-host: the call can do %s; expected ['error:InvalidDomain'] or ['connect', 'new:HOST_inner_valid'] (the name handed to the TLS future must be the one that was validated)" % sorted(map(str, got)), u.where())
     for scen, want in TLS_HOST_EXPECT.items():
         got = tab[scen]
         if isinstance(got, Exception):
